@@ -7,8 +7,8 @@ EMPTY_COVERAGE = dict(evaluations=0, distinct_nontrivial=0, rule="", samples=[])
 SRC = ["harness/c09.c", "harness/cpp_shim.cpp", "harness/sysrand.c", "ref/ref.c"]
 
 
-def cfgname(be, tr, chk, cc="gcc", opt="-O2"):
-    return "%s-k%dd%dm%d%s%s" % (be, tr[0], tr[1], tr[2], "-checker" if chk else "", "" if (cc, opt) == ("gcc", "-O2") else "-%s%s" % (cc, opt))
+def cfgname(be, tr, chk, cc="gcc", opt="-O2", extra=()):
+    return "%s-k%dd%dm%d%s%s%s" % (be, tr[0], tr[1], tr[2], "-checker" if chk else "", "" if (cc, opt) == ("gcc", "-O2") else "-%s%s" % (cc, opt), "".join("," + e for e in extra))
 
 
 def run(ctx):
@@ -37,14 +37,19 @@ def run(ctx):
         if ctx.thorough or be == "c32":
             configs.append((be, D, False, "gcc", "-O0"))
             configs.append((be, (3, 3, 3), False, "clang", "-O1"))
+    # compilers that do not predefine the macros some sources test (the sources have a branch for that case): same bytes expected
+    for be in (("asm", "c64", "c32", "generic") if ctx.thorough else ("asm", "c32")):
+        for cc in ("gcc", "clang"):
+            configs.append((be, D, False, cc, "-O2", ("-U__SIZEOF_SIZE_T__",)))
     results = {}
 
     def one(c):
         be, tr, chk = c[:3]
         cc, opt = (c[3], c[4]) if len(c) > 3 else ("gcc", "-O2")
-        name = cfgname(be, tr, chk, cc, opt)
+        extra = tuple(c[5]) if len(c) > 5 else ()
+        name = cfgname(be, tr, chk, cc, opt, extra)
         try:
-            lib = build.build_lib(be, tr, checker=chk, cc=cc, opt=opt)
+            lib = build.build_lib(be, tr, checker=chk, cc=cc, opt=opt, extra=list(extra))
             exe = build.build_prog("c09", SRC, lib, opt="-O2")
         except build.BuildError as e:
             ctx.fail("build-error:" + name, str(e)[-800:])
